@@ -26,15 +26,31 @@ FlagSetNames == {"0", "1", "2", "3", "4", "5", "6", "S"}
 
 (* transaction contexts [ver, lock, seq]; pairs are hi * 2^24 + lo *)
 P(hi, lo) == [hi |-> hi, lo |-> lo]
+\* The spending transaction: version, lock time, number of inputs (1 or 2), the
+\* index of the input whose script runs (idx), that input's sequence (seq) and
+\* the other input's sequence (oseq).  CHECKLOCKTIMEVERIFY and
+\* CHECKSEQUENCEVERIFY look at the EXECUTING input's sequence only.
+One(ver, lock, seq) == [ver |-> ver, lock |-> lock, seq |-> seq, nin |-> 1, idx |-> 0, oseq |-> P(0, 0)]
+Two(ver, lock, idx, seq, oseq) == [ver |-> ver, lock |-> lock, seq |-> seq, nin |-> 2, idx |-> idx, oseq |-> oseq]
+Final == P(255, 16777215)
 TxCtx(name) ==
-    CASE name = "A" -> [ver |-> 2, lock |-> P(0, 500),        seq |-> P(0, 10)]            \* height lock, relative height 10
-      [] name = "B" -> [ver |-> 1, lock |-> P(29, 13460737),  seq |-> P(255, 16777215)]    \* time lock 500000001, final sequence, v1
-      [] name = "C" -> [ver |-> 2, lock |-> P(29, 13460736),  seq |-> P(0, 4194314)]       \* time lock = threshold, relative time 10
-      [] name = "D" -> [ver |-> 2, lock |-> P(255, 16777215), seq |-> P(128, 10)]          \* max lock time, disable bit in sequence
-      [] name = "E" -> [ver |-> 2, lock |-> P(0, 0),          seq |-> P(0, 65535)]         \* zero lock, max relative height
-      [] name = "F" -> [ver |-> 1, lock |-> P(0, 500),        seq |-> P(0, 10)]            \* as A but transaction version 1
+    CASE name = "A" -> One(2, P(0, 500),        P(0, 10))            \* height lock, relative height 10
+      [] name = "B" -> One(1, P(29, 13460737),  Final)               \* time lock 500000001, final sequence, v1
+      [] name = "C" -> One(2, P(29, 13460736),  P(0, 4194314))       \* time lock = threshold, relative time 10
+      [] name = "D" -> One(2, P(255, 16777215), P(128, 10))          \* max lock time, disable bit in sequence
+      [] name = "E" -> One(2, P(0, 0),          P(0, 65535))         \* zero lock, max relative height
+      [] name = "F" -> One(1, P(0, 500),        P(0, 10))            \* as A but transaction version 1
+      \* two inputs: the executing one and the other one differ
+      [] name = "G" -> Two(2, P(0, 500), 1, P(0, 10), Final)         \* input 1 runs, not final; input 0 final
+      [] name = "H" -> Two(2, P(0, 500), 1, Final, P(0, 10))         \* input 1 runs, final; input 0 not final
+      [] name = "I" -> Two(2, P(0, 500), 0, P(0, 10), Final)         \* input 0 runs, not final; input 1 final
+      [] name = "J" -> Two(2, P(0, 500), 0, Final, P(0, 10))         \* input 0 runs, final; input 1 not final
+      [] name = "K" -> Two(2, P(0, 500), 1, P(0, 10), P(128, 10))    \* input 1 runs with relative lock 10; input 0 has the disable bit
+      [] name = "L" -> Two(2, P(0, 500), 1, P(128, 10), P(0, 10))    \* input 1 runs with the disable bit; input 0 relative lock 10
+      [] name = "M" -> Two(2, P(0, 500), 1, P(0, 4194314), P(0, 10)) \* input 1 runs with a time-based relative lock; input 0 height-based
+      [] name = "N" -> Two(2, P(0, 500), 1, P(0, 9), P(0, 11))       \* input 1 runs with relative lock 9; input 0 has 11
 
-CtxNames == {"A", "B", "C", "D", "E", "F"}
+CtxNames == {"A", "B", "C", "D", "E", "F", "G", "H", "I", "J", "K", "L", "M", "N"}
 Config(t) == [fl |-> FlagSet(t[2]), tx |-> TxCtx(t[3])]
 
 \* the binder reads the tables it has to concretise from TLC's output
@@ -103,6 +119,8 @@ SigVariants(svc) == {SigBy("K1", svc),
                      SigElem("K1", 4, 0, svc, 0),      \* undefined hash type
                      SigElem("K1", 131, 0, svc, 0),    \* SINGLE|ANYONECANPAY
                      SigElem("K1", 1, 0, svc, 1)}      \* made for the code after a code separator at position 1
+\* every DER shape class of BIP66 (SIGHASH_ALL appended), see ScriptVM!ShapeBody
+ShapeSigs == {SigElem("K1", 1, cls, 0, 0) : cls \in ShapeClasses}
 \* schnorr signatures for tapscript
 SchnorrVariants == {SigElem("K1", 0, 64, 2, 0),        \* 64 bytes, default hash type
                     SigElem("K1", 1, 64, 2, 0),        \* 65 bytes, SIGHASH_ALL
